@@ -205,7 +205,9 @@ namespace
                 {
                     int64_t iv = interval();
                     int64_t back = r.chance(1, 3) ? r.range(0, 3 * iv) : (r.chance(1, 2) ? 0 : -r.range(0, 3 * period));
-                    p.ops.push_back({OP_PLAN, (int64_t)r.below(nt), back, iv, (int64_t)r.below(2)});
+                    // last argument: how the client sets the timer up - plan(t, start, interval), or the setters followed by plan(t):
+                    // only a new start (restart with the interval it has), only a new interval, both in either order
+                    p.ops.push_back({OP_PLAN, (int64_t)r.below(nt), back, iv, (int64_t)r.below(2), r.chance(1, 2) ? 0 : (int64_t)r.range(1, 4)});
                 }
                 else if (k < 780)
                     p.ops.push_back({OP_UNPLAN, (int64_t)r.below(nt)});
@@ -254,9 +256,36 @@ namespace
             return false;
         }
 
-        void do_plan(int t, TT start, TT iv)
+        std::vector<char> configured; // the timer has been given a start and an interval at least once
+        void do_plan(int t, TT start, TT iv, int style = 0)
         {
-            mgrs[cur_mg]->plan(*tim[t], start, iv);
+            if (!configured[t]) style = 0;
+            switch (style)
+            {
+            default: mgrs[cur_mg]->plan(*tim[t], start, iv); break;
+            case 1: // restart: a new start, the interval it already has
+                iv = model[t].interval;
+                tim[t]->set_start(start);
+                mgrs[cur_mg]->plan(*tim[t]);
+                probe("restarted_through_set_start");
+                break;
+            case 2: // a new period from the start it already has (kept at or before "now" by the caller of this helper)
+                start = model[t].start;
+                tim[t]->set_interval(iv);
+                mgrs[cur_mg]->plan(*tim[t]);
+                break;
+            case 3:
+                tim[t]->set_start(start);
+                tim[t]->set_interval(iv);
+                mgrs[cur_mg]->plan(*tim[t]);
+                break;
+            case 4:
+                tim[t]->set_interval(iv);
+                tim[t]->set_start(start);
+                mgrs[cur_mg]->plan(*tim[t]);
+                break;
+            }
+            configured[t] = 1;
             model[t].start = start;
             model[t].interval = iv;
             if (model[t].planned && model[t].mg != cur_mg) probe("timer_moved_between_managers");
@@ -274,6 +303,7 @@ namespace
             tim[t].reset(fresh_timer(t));
             model[t] = Model();
             script[t] = Script();
+            configured[t] = 0;
         }
 
         void check_state(const char *where)
@@ -391,6 +421,7 @@ namespace
             cur_mg = 0;
             tim.clear();
             model.assign(n, Model());
+            configured.assign(n, 0);
             script.assign(n, Script());
             for (int i = 0; i < n; i++) tim.emplace_back(fresh_timer(i));
             int64_t origin = p.c(1, 1000) % 100000;
@@ -451,7 +482,12 @@ namespace
                     if (std::is_unsigned<TT>::value && back < 0) back = 0;
                     cur_mg = (int)mod(arg(o, 4), nmgr);
                     t.ev("plan t%d in manager %d start=now-%lld iv=%lld", ti, cur_mg, (long long)back, (long long)iv);
-                    do_plan(ti, now - (TT)back * S, (TT)iv * S);
+                    {
+                        int style = (int)mod(arg(o, 5), 5);
+                        // (a wrapping time base needs every start at or before now: the old start of style 2 may lie ahead after a re-arm)
+                        if (style == 2 && (std::is_unsigned<TT>::value || model[ti].start > now)) style = 0;
+                        do_plan(ti, now - (TT)back * S, (TT)iv * S, style);
+                    }
                     cur_mg = 0;
                     if (back >= iv) fault("planned_overdue");
                     break;
